@@ -1180,6 +1180,19 @@ def rule_cycle_check_first(ctx, rid, r):
            "does not iterate the topological sort to exhaustion (the cycle verdict is raised only at the end)")
     if not ok:
         return
+    # ... on every path: nothing returns (or swallows the verdict) before/around the iteration
+    ga = CFG(fa, may_raise=lambda n: False)
+    loops_n = set(ga.of(fors[0]))
+    skip = ga.reach([ga.entry], avoid=loops_n) & {ga.exit}
+    early = [n for n in fa.own_nodes() if isinstance(n, ast.Return)]
+    ctx.ob(rid, f"{fa.short}/no-shortcut", not skip, loc(fa, early[0]) if early else loc(fa),
+           "every call of the assertion runs the full topological pass" if not skip else
+           "the acyclicity assertion can return without running the topological pass (a shortcut that is not a proof of "
+           "acyclicity lets a cycle through: the nodes on it never run and run returns as if complete)",
+           head(stmt_of(fa.module, early[0])) if early else "")
+    handlers = [n for n in fa.own_nodes() if isinstance(n, ast.ExceptHandler)]
+    ctx.ob(rid, f"{fa.short}/verdict-not-swallowed", not handlers, loc(fa), "no handler around the topological pass" if not handlers else
+           "the assertion catches exceptions around the topological pass")
     ts = [f for f in m.callee_funcs(fa, fors[0].iter)]
     if len(ts) != 1:
         raise AnalysisError("topological sort generator not resolved")
